@@ -7,6 +7,13 @@ and emits these tables as plain data on every run; the per-run proof obligation 
 `Generated.tbl.Valid = true`, closed by `decide`.  The theorems below are proved once, for every
 table: validity lifts to all expression trees by structural induction.
 
+The validity tests are CLOSED OVER A FIXED CLASS UNIVERSE (`classSlots`, `propClasses`, `probedExcs`,
+`leafClasses`, `refClasses`: part of the specification, like `pySpecFull`): a table is valid only if it
+has an all-true row for every (class, slot) / class / (class, exception) of the universe, so that
+`ValidDeps` gives `wellSlotted` for every tree of the universe (`wellSlotted_of_valid`), `ValidReduce`
+gives `picklable` (`picklable_of_valid`), and `ValidOps` gives that every class a term can build was
+probed for the exceptions it must let through (`RefsLift.build_eval2_universe`).
+
 Tables (beyond the binary dunders / classes of `XModel/Tables.lean`):
 * `UnaryRow`    dunder → class, and the primitive the class applies
 * `BuiltinRow`  dunder → `BuiltinRef(op, params)`; `round(x)` must pass no `ndigits`
@@ -116,28 +123,115 @@ def inplaceOk (f : Full) (d : String) (p : Prim) : Bool :=
   | some r => r.present && r.valuePrim = some p && r.exprCls.isSome && r.exprCls = classOfPrim f.bin p
   | none => false
 
-/-- C04's part: every operator builds the node that means what Python says the operator means -/
-def Full.ValidOps (f : Full) : Bool :=
+/-! ### the class universe (fixed specification, like `pySpecFull`)
+
+Every expression class of `xdeps/refs.py` with the names of its operand slots, as the translator names
+them in the `deps` rows.  `ValidOps` / `ValidDeps` / `ValidReduce` are closed over THIS list, not over the
+rows the table happens to contain: a table that says nothing about a class of the universe is invalid.
+A class added to the library makes the regenerated table invalid (`ValidOps` asks that every class of
+the table is in the universe) until it is added here. -/
+
+/-- the subclasses of `BinOpExpr` (operand slots `lhs`, `rhs`) -/
+def binClasses : List String :=
+  ["AddExpr", "SubExpr", "MulExpr", "MatmulExpr", "TruedivExpr", "FloordivExpr", "ModExpr", "PowExpr",
+   "BitwiseAndExpr", "BitwiseOrExpr", "XorExpr", "LtExpr", "LeExpr", "EqExpr", "NeExpr", "GeExpr", "GtExpr",
+   "RshiftExpr", "LshiftExpr"]
+
+/-- the subclasses of `UnaryOpExpr` (operand slot `arg`) -/
+def unaryClasses : List String := ["NegExpr", "PosExpr", "InvertExpr"]
+
+/-- every expression class with its operand slots.  `CallRef`'s `arg` / `kwarg` and `BuiltinRef`'s `param`
+    stand for any number of operands in that position; `LiteralExpr` has no operand -/
+def classSlots : List (String × List String) :=
+  binClasses.map (fun c => (c, ["lhs", "rhs"])) ++ unaryClasses.map (fun c => (c, ["arg"])) ++
+  [("BuiltinRef", ["arg", "param"]), ("CallRef", ["func", "arg", "kwarg"]),
+   ("ItemRef", ["owner", "key"]), ("AttrRef", ["owner", "key"]), ("LiteralExpr", [])]
+
+/-- classes without operand: the translator emits the row `(cls, "none")` for them (is a set returned) -/
+def leafClasses : List String := ["LiteralExpr"]
+
+/-- the container references (`Manager.ref`, `Manager.refattr`): the leaves `DNode.ref` of the trees below -/
+def refClasses : List String := ["Ref", "ObjectAttrRef"]
+
+/-- the classes whose `_get_value` applies one Python operator to its operand values, inside the
+    `try … except ZeroDivisionError` guard or without it: the classes for which "lets every other
+    exception through" is a question, and which the translator probes -/
+def propClasses : List String := binClasses ++ unaryClasses
+
+/-- the exception classes the translator raises from an operand of every class of `propClasses`:
+    `ArithmeticError` is the base class of `ZeroDivisionError`, `OverflowError` and `FloatingPointError`
+    are its siblings, `ValueError` and `TypeError` are unrelated to it -/
+def probedExcs : List String := ["OverflowError", "FloatingPointError", "ArithmeticError", "ValueError", "TypeError"]
+
+/-- `cls` is a class of the universe -/
+def knownClass (cls : String) : Bool := classSlots.any (fun cs => cs.1 = cls)
+
+/-- `slot` is a declared operand slot of class `cls` -/
+def declared (cls slot : String) : Bool := classSlots.any (fun cs => cs.1 = cls && cs.2.contains slot)
+
+/-- the constructor's operand slots of a class, in constructor order (`[]` outside the universe) -/
+def ctorSlots (cls : String) : List String :=
+  match classSlots.find? (fun cs => cs.1 = cls) with
+  | some cs => cs.2
+  | none => []
+
+/-- the table has, for class `cls` and every probed exception, a row saying that it came through -/
+def probedClass (rows : List PropagateRow) (cls : String) : Bool :=
+  probedExcs.all (fun e => rows.any (fun r => r.cls = cls && r.exc = e && r.propagates))
+
+/-- the first `deps` row for (class, slot) says: visited, and a set is returned -/
+def covered (rows : List DepRow) (cls slot : String) : Bool :=
+  match rows.find? (fun r => r.cls = cls && r.slot = slot) with
+  | some r => r.covered && r.returnsSet
+  | none => false
+
+/-- the first `reduce` row of the class says: own class, constructor arguments in order, rebuilds -/
+def reduceOk (rows : List ReduceRow) (cls : String) : Bool :=
+  match rows.find? (·.cls = cls) with
+  | some r => r.sameClass && r.argsInOrder && r.rebuilds
+  | none => false
+
+/-- the operator rows of C04 (binary / reflected, unary, builtin, in-place), spec-driven -/
+def Full.ValidOpRows (f : Full) : Bool :=
   pySpecFull.all (fun p => binRowOk f.bin p.1 p.2) &&
   unarySpec.all (fun p => unaryOk f p.1 p.2) &&
   builtinSpec.all (fun p => builtinOk f p.1 p.2.1 p.2.2.1 p.2.2.2) &&
-  inplaceSpec.all (fun p => inplaceOk f p.1 p.2) &&
-  f.propagate.all (·.propagates) && !f.propagate.isEmpty
+  inplaceSpec.all (fun p => inplaceOk f p.1 p.2)
 
-/-- C05's part: every slot of every class is visited and a set is returned -/
-def Full.ValidDeps (f : Full) : Bool := f.deps.all (fun r => r.covered && r.returnsSet) && !f.deps.isEmpty
+/-- the `propagate` part of C04, closed over the universe: no listed row records a swallowed exception,
+    EVERY class of `propClasses` has a propagating row for EVERY exception of `probedExcs`, and every
+    class the table's operator rows can build is a class of the universe -/
+def Full.ValidPropagate (f : Full) : Bool :=
+  f.propagate.all (·.propagates) &&
+  propClasses.all (fun c => probedClass f.propagate c) &&
+  f.bin.classes.all (fun c => binClasses.contains c.cls) &&
+  f.unary.all (fun r => unaryClasses.contains r.cls)
 
-/-- C12's part: every class reduces to its own constructor's arguments in order -/
+/-- C04's part: every operator builds the node that means what Python says the operator means, and every
+    class of the universe lets the probed exceptions through -/
+def Full.ValidOps (f : Full) : Bool := f.ValidOpRows && f.ValidPropagate
+
+/-- C05's part: every listed row is visited and returns a set, and EVERY declared slot of EVERY class of
+    the universe has such a row (for a class without operand: the row `(cls, "none")`) -/
+def Full.ValidDeps (f : Full) : Bool :=
+  f.deps.all (fun r => r.covered && r.returnsSet) && !f.deps.isEmpty &&
+  classSlots.all (fun cs => cs.2.all (fun sl => covered f.deps cs.1 sl)) &&
+  leafClasses.all (fun c => covered f.deps c "none")
+
+/-- C12's part: every listed class reduces to its own constructor's arguments in order and rebuilds, and
+    EVERY class of the universe (and both container-reference classes) has such a row -/
 def Full.ValidReduce (f : Full) : Bool :=
-  f.reduce.all (fun r => r.sameClass && r.argsInOrder && r.rebuilds) && !f.reduce.isEmpty
+  f.reduce.all (fun r => r.sameClass && r.argsInOrder && r.rebuilds) && !f.reduce.isEmpty &&
+  classSlots.all (fun cs => reduceOk f.reduce cs.1) &&
+  refClasses.all (fun c => reduceOk f.reduce c)
 
 def Full.Valid (f : Full) : Bool := f.ValidOps && f.ValidDeps && f.ValidReduce
 
 /-- validity of the full table contains validity of the binary fragment of `XModel/Tables.lean` -/
 theorem valid_bin (f : Full) (h : f.ValidOps = true) : f.bin.Valid = true := by
-  unfold Full.ValidOps at h
+  unfold Full.ValidOps Full.ValidOpRows at h
   simp only [Bool.and_eq_true] at h
-  obtain ⟨⟨⟨⟨⟨hb, _⟩, _⟩, _⟩, _⟩, _⟩ := h
+  obtain ⟨⟨⟨⟨hb, _⟩, _⟩, _⟩, _⟩ := h
   unfold Tables.Tbl.Valid
   rw [List.all_eq_true] at hb ⊢
   intro p hp
@@ -148,7 +242,7 @@ theorem covered_of_valid (f : Full) (h : f.ValidDeps = true) (r : DepRow) (hr : 
     (r.covered && r.returnsSet) = true := by
   unfold Full.ValidDeps at h
   simp only [Bool.and_eq_true] at h
-  exact List.all_eq_true.mp h.1 r hr
+  exact List.all_eq_true.mp h.1.1.1 r hr
 
 /-! ### C05: dependencies are exactly the refs occurring in any slot -/
 
@@ -157,11 +251,6 @@ inductive DNode where
   | ref (id : Nat)
   | lit
   | node (cls : String) (slots : List (String × DNode))
-
-def covered (rows : List DepRow) (cls slot : String) : Bool :=
-  match rows.find? (fun r => r.cls = cls && r.slot = slot) with
-  | some r => r.covered && r.returnsSet
-  | none => false
 
 mutual
 /-- what `_get_dependencies()` reports, given the extracted slot coverage -/
@@ -213,6 +302,61 @@ theorem deps_exact_slots (rows : List DepRow) (cls : String) :
     rw [deps_exact rows c hw, deps_exact_slots rows cls rest hr]
 end
 
+/-! ### C05 over the class universe: `ValidDeps` gives `wellSlotted` for every tree of the universe -/
+
+mutual
+/-- a property of the TREE alone (no table): every node's class is a class of `classSlots` and every
+    child sits in a slot that `classSlots` declares for that class (any number of children per slot, in
+    any order: `CallRef` has as many `arg` / `kwarg` children as the call has arguments) -/
+def InUniverse : DNode → Bool
+  | .ref _ => true
+  | .lit => true
+  | .node cls slots => knownClass cls && inUniverseSlots cls slots
+def inUniverseSlots (cls : String) : List (String × DNode) → Bool
+  | [] => true
+  | (s, c) :: rest => declared cls s && InUniverse c && inUniverseSlots cls rest
+end
+
+/-- the universe conjunct of `ValidDeps`: every declared (class, slot) pair is covered -/
+theorem covered_of_declared (f : Full) (h : f.ValidDeps = true) (cls slot : String)
+    (hd : declared cls slot = true) : covered f.deps cls slot = true := by
+  unfold Full.ValidDeps at h
+  simp only [Bool.and_eq_true] at h
+  have hall := h.1.2
+  unfold declared at hd
+  obtain ⟨cs, hcs, hp⟩ := List.any_eq_true.mp hd
+  simp only [Bool.and_eq_true, decide_eq_true_eq] at hp
+  have h1 := List.all_eq_true.mp hall cs hcs
+  have h2 := List.all_eq_true.mp h1 slot (by simpa using hp.2)
+  rw [← hp.1]
+  exact h2
+
+mutual
+/-- a valid table covers every slot of every tree of the universe -/
+theorem wellSlotted_of_valid (f : Full) (h : f.ValidDeps = true) :
+    ∀ n : DNode, InUniverse n = true → wellSlotted f.deps n = true
+  | .ref _, _ => rfl
+  | .lit, _ => rfl
+  | .node cls slots, hu => by
+    simp only [InUniverse, Bool.and_eq_true] at hu
+    simp only [wellSlotted]
+    exact wellSlots_of_valid f h cls slots hu.2
+theorem wellSlots_of_valid (f : Full) (h : f.ValidDeps = true) (cls : String) :
+    ∀ slots : List (String × DNode), inUniverseSlots cls slots = true → wellSlots f.deps cls slots = true
+  | [], _ => rfl
+  | (s, c) :: rest, hu => by
+    simp only [inUniverseSlots, Bool.and_eq_true] at hu
+    obtain ⟨⟨hd, hc⟩, hr⟩ := hu
+    simp only [wellSlots, Bool.and_eq_true]
+    exact ⟨⟨covered_of_declared f h cls s hd, wellSlotted_of_valid f h c hc⟩, wellSlots_of_valid f h cls rest hr⟩
+end
+
+/-- C05 for a valid table: every tree of the universe reports exactly the refs inside it.  The hypothesis
+    on the tree does not mention the table. -/
+theorem deps_exact_universe (f : Full) (h : f.ValidDeps = true) (n : DNode) (hu : InUniverse n = true) :
+    depsOf f.deps n = leafs n :=
+  deps_exact f.deps n (wellSlotted_of_valid f h n hu)
+
 /-! ### C12: reduce / rebuild is the identity on every object graph -/
 
 /-- pickling a node: its class and the pickles of its constructor arguments, as `__reduce__` orders them -/
@@ -220,11 +364,6 @@ inductive Pickled where
   | leaf (id : Nat)
   | lit
   | obj (cls : String) (args : List Pickled)
-
-def reduceOk (rows : List ReduceRow) (cls : String) : Bool :=
-  match rows.find? (·.cls = cls) with
-  | some r => r.sameClass && r.argsInOrder && r.rebuilds
-  | none => false
 
 mutual
 /-- `pickle.dumps`: when a class's row is not valid the argument list it hands to pickle is unknown:
@@ -287,6 +426,92 @@ theorem unpickle_pickle_slots (rows : List ReduceRow) (sn : String → List Stri
     simp only [picklableSlots, Bool.and_eq_true] at h
     simp only [pickleSlots, unpickleArgs, List.map_cons]
     rw [unpickle_pickle rows sn c h.1, unpickle_pickle_slots rows sn rest h.2]
+end
+
+/-! ### C12 over the class universe: `ValidReduce` gives `picklable` for every tree of the universe -/
+
+mutual
+/-- a property of the TREE alone: every node's class is a class of `classSlots` and its children are
+    the constructor's operands, one per slot of `ctorSlots`, in constructor order -/
+def InUniverseCtor : DNode → Bool
+  | .ref _ => true
+  | .lit => true
+  | .node cls slots => knownClass cls && decide (slots.map (·.1) = ctorSlots cls) && inUniverseCtorSlots slots
+def inUniverseCtorSlots : List (String × DNode) → Bool
+  | [] => true
+  | (_, c) :: rest => InUniverseCtor c && inUniverseCtorSlots rest
+end
+
+/-- the universe conjunct of `ValidReduce`: every class of the universe has a valid reduce row -/
+theorem reduceOk_of_known (f : Full) (h : f.ValidReduce = true) (cls : String) (hk : knownClass cls = true) :
+    reduceOk f.reduce cls = true := by
+  unfold Full.ValidReduce at h
+  simp only [Bool.and_eq_true] at h
+  have hall := h.1.2
+  unfold knownClass at hk
+  obtain ⟨cs, hcs, hp⟩ := List.any_eq_true.mp hk
+  have h1 := List.all_eq_true.mp hall cs hcs
+  have : cs.1 = cls := by simpa using hp
+  rw [← this]
+  exact h1
+
+mutual
+theorem picklable_of_valid (f : Full) (h : f.ValidReduce = true) :
+    ∀ n : DNode, InUniverseCtor n = true → picklable f.reduce ctorSlots n = true
+  | .ref _, _ => rfl
+  | .lit, _ => rfl
+  | .node cls slots, hu => by
+    simp only [InUniverseCtor, Bool.and_eq_true, decide_eq_true_eq] at hu
+    obtain ⟨⟨hk, hn⟩, hs⟩ := hu
+    simp only [picklable, Bool.and_eq_true, decide_eq_true_eq]
+    exact ⟨⟨reduceOk_of_known f h cls hk, hn⟩, picklableSlots_of_valid f h slots hs⟩
+theorem picklableSlots_of_valid (f : Full) (h : f.ValidReduce = true) :
+    ∀ slots : List (String × DNode), inUniverseCtorSlots slots = true →
+      picklableSlots f.reduce ctorSlots slots = true
+  | [], _ => rfl
+  | (_, c) :: rest, hu => by
+    simp only [inUniverseCtorSlots, Bool.and_eq_true] at hu
+    simp only [picklableSlots, Bool.and_eq_true]
+    exact ⟨picklable_of_valid f h c hu.1, picklableSlots_of_valid f h rest hu.2⟩
+end
+
+/-- C12 for a valid table: reduce / rebuild is the identity on every tree of the universe -/
+theorem unpickle_pickle_universe (f : Full) (h : f.ValidReduce = true) (n : DNode)
+    (hu : InUniverseCtor n = true) : unpickleN ctorSlots (pickleN f.reduce n) = n :=
+  unpickle_pickle f.reduce ctorSlots n (picklable_of_valid f h n hu)
+
+/-- a constructor-shaped tree is a tree of the universe in the sense of C05 -/
+theorem declared_of_ctorSlot (cls s : String) (hs : s ∈ ctorSlots cls) :
+    declared cls s = true := by
+  unfold ctorSlots at hs
+  cases hf : classSlots.find? (fun cs => cs.1 = cls) with
+  | none => simp [hf] at hs
+  | some cs =>
+    simp only [hf] at hs
+    have hmem := List.mem_of_find?_eq_some hf
+    have hname : cs.1 = cls := by simpa using List.find?_some hf
+    unfold declared
+    exact List.any_eq_true.mpr ⟨cs, hmem, by simp [hname, hs]⟩
+
+mutual
+theorem inUniverse_of_ctor : ∀ n : DNode, InUniverseCtor n = true → InUniverse n = true
+  | .ref _, _ => rfl
+  | .lit, _ => rfl
+  | .node cls slots, hu => by
+    simp only [InUniverseCtor, Bool.and_eq_true, decide_eq_true_eq] at hu
+    obtain ⟨⟨hk, hn⟩, hs⟩ := hu
+    simp only [InUniverse, Bool.and_eq_true]
+    refine ⟨hk, inUniverseSlots_of_ctor cls slots (fun p hp => ?_) hs⟩
+    exact declared_of_ctorSlot cls p.1 (by rw [← hn]; exact List.mem_map_of_mem hp)
+theorem inUniverseSlots_of_ctor (cls : String) :
+    ∀ slots : List (String × DNode), (∀ p ∈ slots, declared cls p.1 = true) →
+      inUniverseCtorSlots slots = true → inUniverseSlots cls slots = true
+  | [], _, _ => rfl
+  | (s, c) :: rest, hd, hu => by
+    simp only [inUniverseCtorSlots, Bool.and_eq_true] at hu
+    simp only [inUniverseSlots, Bool.and_eq_true]
+    exact ⟨⟨hd (s, c) (by simp), inUniverse_of_ctor c hu.1⟩,
+      inUniverseSlots_of_ctor cls rest (fun p hp => hd p (List.mem_cons_of_mem _ hp)) hu.2⟩
 end
 
 end RefsTable
